@@ -70,11 +70,13 @@ PLANS = {
     },
     "C07": {
         "level": "proof",
-        "sidecars": ["pdbread", "grouping"],
+        "sidecars": ["pdbread", "grouping", "readloop"],
         "extras": [{"name": "c07_records", "module": "bounded.c07_records", "func": "run", "python": "venv", "timeout": 3000}],
         "explanation": "ATOM/HETATM column parser proved (layout logic), drop_water proved; residue grouping of "
                        "Biomolecule.__init__ proved by induction over the record list (loop invariant with ghost books: none "
-                       "lost, none twice, residues homogeneous and maximal); reader loop enumerated over record sequences (B)",
+                       "lost, none twice, residues homogeneous and maximal); reader loop of read_pdb proved by induction over "
+                       "the lines (every record-bearing line gives one record, in order; blank lines and unknown records "
+                       "skip nothing else; the loop ends only at end of file); both also enumerated over record sequences (B)",
     },
     "C09": {
         "level": "proof",
